@@ -1265,6 +1265,12 @@ fn check_with(case: &Case, wheel_window_ms: Option<u64>) -> CheckResult {
 }
 
 pub fn run(args: &Args) -> i32 {
+    // child shard of the wire-lab sub-check
+    if args.shard.is_some() {
+        let total = args.cases(150, 1_500);
+        let st = super::c19_lab::child(args, total);
+        return engine::shard::child_finish(args, &st);
+    }
     let mut ev = Evidence::new(args, "exploration");
     ev.rule(
         "manager",
@@ -1306,5 +1312,16 @@ pub fn run(args: &Args) -> i32 {
     );
     let cases = args.cases(50_000, 500_000);
     engine::run_pbt(&mut ev, args, "early-expiry", cases, strategy, check_wheel);
+
+    ev.rule(super::c19_lab::SUB, super::c19_lab::rule());
+    ev.assume("sub 'wire': every client has its own source address and port, so both affinity modes give one flow per client (several ports of one address sharing a flow in IP-only mode is covered by sub 'manager'); cluster and listener are not reconfigured while datagrams flow; IPv4 loopback only");
+    ev.assume("sub 'wire': a datagram missing at a backend is UDP, not a failure, unless more than 20% of the datagrams that had to be forwarded are missing; with max_flows 2..4 AND a requests/responses cap, which client is admitted depends on timing and the loss rule is not applied");
+    ev.assume("sub 'wire': 'exactly once' teardown is observed through its consequences only (no datagram through an old upstream socket after the idle period, late backend datagrams reach no client, the worker's debug assertions stay silent)");
+    for class in ["new_flow_then_established_in_one_burst", "established_then_new_in_one_burst", "idle_expiry_then_new_flow"] {
+        ev.floor(super::c19_lab::SUB, class, 0.3);
+    }
+    ev.floor(super::c19_lab::SUB, "proxy_protocol", 0.15);
+    ev.floor(super::c19_lab::SUB, "requests_cap_1", 0.1);
+    engine::shard::run_sharded(&mut ev, args, super::c19_lab::SUB, 16, std::time::Duration::from_secs(args.tier.pick(600, 3600)));
     ev.finish()
 }
